@@ -101,3 +101,103 @@ end
 
 end Vec
 end Clarabel
+
+
+/-! ### Round 3 additions (C16): the remaining kernels of `VectorMath`
+
+Everything below is new (nothing above is changed).  The `…E` variants add the Rust
+`assert_eq!` length checks of the kernels whose totalised versions above silently
+truncate; `hadamardFull` / `scalaropFrom` keep the unwritten tail of `self` exactly as the
+Rust `zip(&mut *self, …)` loops do. -/
+
+namespace Clarabel
+namespace Vec
+
+variable {α : Type}
+
+/-- `copy_from` (`copy_from_slice` panics on a length mismatch) -/
+def copyFrom (dst src : Array α) : MErr (Array α) :=
+  if dst.size != src.size then throw (.panic "copy_from_slice: length mismatch") else pure src
+
+/-- `scalarop`: `for x in self { *x = op(*x) }` -/
+def scalarop (x : Array α) (op : α → α) : Array α := x.map op
+
+/-- `scalarop_from`: `for (x, v) in zip(self, v) { *x = op(*v) }` — only the first
+`min(self.len, v.len)` entries of `self` are written -/
+def scalaropFrom (x : Array α) (op : α → α) (v : Array α) : Array α :=
+  ((v.toList.take x.size).map op ++ x.toList.drop v.size).toArray
+
+/-- `set` (all entries become `c`) -/
+def setAll (x : Array α) (c : α) : Array α := scalarop x (fun _ => c)
+
+/-- `hadamard` as the Rust loop runs it: `zip(self, y).for_each(|(x,y)| *x *= *y)`; entries of
+`self` beyond `y.len()` are left alone (`hadamard` above drops them) -/
+def hadamardFull [Mul α] (x y : Array α) : Array α :=
+  ((x.toList.zip y.toList).map (fun p => p.1 * p.2) ++ x.toList.drop y.size).toArray
+
+/-- `select` with its `assert_eq!(self.len(), index.len())` -/
+def selectE (x : Array α) (idx : Array Bool) : MErr (Array α) :=
+  if x.size != idx.size then throw (.panic "select: assert_eq len") else pure (select x idx)
+
+section
+variable [Add α] [Mul α] [OfNat α 0]
+
+/-- `axpby` with its `assert_eq!(self.len(), x.len())` -/
+def axpbyE (a : α) (x : Array α) (b : α) (y : Array α) : MErr (Array α) :=
+  if y.size != x.size then throw (.panic "axpby: assert_eq len") else pure (axpby a x b y)
+
+/-- `waxpby` with its two asserts (`w` is the receiver; only its length matters) -/
+def waxpbyE (wlen : Nat) (a : α) (x : Array α) (b : α) (y : Array α) : MErr (Array α) :=
+  if wlen != x.size then throw (.panic "waxpby: assert_eq len x")
+  else if wlen != y.size then throw (.panic "waxpby: assert_eq len y")
+  else pure (waxpby a x b y)
+
+/-- `dot_shifted` with its three asserts -/
+def dotShiftedE (z s dz ds : Array α) (a : α) : MErr α :=
+  if z.size != s.size then throw (.panic "dot_shifted: assert_eq z s")
+  else if z.size != dz.size then throw (.panic "dot_shifted: assert_eq z dz")
+  else if s.size != ds.size then throw (.panic "dot_shifted: assert_eq s ds")
+  else pure (dotShifted z s dz ds a)
+
+end
+
+/-- elementwise `clip` (`VectorMath::clip`) -/
+def vclip [LT α] [DecidableLT α] (x : Array α) (lo hi : α) : Array α :=
+  scalarop x (fun v => clip v lo hi)
+
+section
+variable [Add α] [Sub α] [Mul α] [Div α] [OfNat α 0] [OfNat α 1] [FloatLike α]
+
+/-- `dist`: `sqrt(Σ powi(xᵢ - yᵢ, 2))`; `powi(d, 2)` is the single product `d * d` -/
+def dist (x y : Array α) : α :=
+  sqrt ((x.toList.zip y.toList).foldl (fun acc p => acc + (p.1 - p.2) * (p.1 - p.2)) 0)
+
+/-- `norm_one_scaled` -/
+def normOneScaled (x v : Array α) : α :=
+  (x.toList.zip v.toList).foldl (fun acc p => acc + fabs (p.1 * p.2)) 0
+
+/-- `norm_inf_diff` -/
+def normInfDiff (x b : Array α) : α :=
+  (x.toList.zip b.toList).foldl (fun acc p => fmax acc (fabs (p.1 - p.2))) 0
+
+/-- `norm_scaled` with its `assert_eq!` -/
+def normScaledE (x v : Array α) : MErr α :=
+  if x.size != v.size then throw (.panic "norm_scaled: assert_eq len") else pure (normScaled x v)
+
+/-- `norm_inf_scaled` with its `assert_eq!` -/
+def normInfScaledE (x v : Array α) : MErr α :=
+  if x.size != v.size then throw (.panic "norm_inf_scaled: assert_eq len") else pure (normInfScaled x v)
+
+/-- `is_finite` -/
+def isFinite (x : Array α) : Bool := x.toList.all FloatLike.isFinite
+
+/-- `normalize`: returns the norm and the scaled vector; a vector whose norm compares
+equal to zero is returned untouched together with `0` (`norm.recip()` is `1 / norm`) -/
+def normalize [BEq α] (x : Array α) : α × Array α :=
+  let nrm := norm x
+  if nrm == 0 then (0, x) else (nrm, scale x (1 / nrm))
+
+end
+
+end Vec
+end Clarabel
